@@ -253,7 +253,9 @@ def insert(field, out, intensity=False, weight=1):
     #if indexing not in ('xy', 'ij'):
     #    raise ValueError("Valid values for `indexing` are 'xy' and 'ij'")
 
-    if field.shape == out.shape and np.array_equal(field.offset, [0, 0]):
+    if field.data.ndim == 0 or (field.shape == out.shape and np.array_equal(field.offset, [0, 0])):
+        # a constant (0-d) field covers all of out, as does a field of the
+        # same shape with no offset
         field_slice = Ellipsis
         out_slice = Ellipsis
     else:
